@@ -142,8 +142,14 @@ func LoadDHCPv6Records(filename string) (map[string]net.IP, error) {
 	return records, nil
 }
 
-// Handler6 handles DHCPv6 packets for the file plugin
+// Handler6 handles DHCPv6 packets for the file plugin, using the most recently
+// loaded records (StaticRecords)
 func Handler6(req, resp dhcpv6.DHCPv6) (dhcpv6.DHCPv6, bool) {
+	return handle6(&StaticRecords, req, resp)
+}
+
+// handle6 answers from *records, which must only be read with recLock held
+func handle6(records *map[string]net.IP, req, resp dhcpv6.DHCPv6) (dhcpv6.DHCPv6, bool) {
 	m, err := req.GetInnerMessage()
 	if err != nil {
 		log.Errorf("BUG: could not decapsulate: %v", err)
@@ -165,7 +171,7 @@ func Handler6(req, resp dhcpv6.DHCPv6) (dhcpv6.DHCPv6, bool) {
 	recLock.RLock()
 	defer recLock.RUnlock()
 
-	ipaddr, ok := StaticRecords[mac.String()]
+	ipaddr, ok := (*records)[mac.String()]
 	if !ok {
 		log.Warningf("MAC address %s is unknown", mac.String())
 		return resp, false
@@ -185,12 +191,18 @@ func Handler6(req, resp dhcpv6.DHCPv6) (dhcpv6.DHCPv6, bool) {
 	return resp, false
 }
 
-// Handler4 handles DHCPv4 packets for the file plugin
+// Handler4 handles DHCPv4 packets for the file plugin, using the most recently
+// loaded records (StaticRecords)
 func Handler4(req, resp *dhcpv4.DHCPv4) (*dhcpv4.DHCPv4, bool) {
+	return handle4(&StaticRecords, req, resp)
+}
+
+// handle4 answers from *records, which must only be read with recLock held
+func handle4(records *map[string]net.IP, req, resp *dhcpv4.DHCPv4) (*dhcpv4.DHCPv4, bool) {
 	recLock.RLock()
 	defer recLock.RUnlock()
 
-	ipaddr, ok := StaticRecords[req.ClientHWAddr.String()]
+	ipaddr, ok := (*records)[req.ClientHWAddr.String()]
 	if !ok {
 		log.Warningf("MAC address %s is unknown", req.ClientHWAddr.String())
 		return resp, false
@@ -265,7 +277,16 @@ func setupFile(v6 bool, args ...string) (handler.Handler6, handler.Handler4, err
 	}
 
 	log.Infof("loaded %d leases from %s", len(StaticRecords), filename)
-	return Handler6, Handler4, nil
+	// The DHCPv4 and the DHCPv6 instance each serve from their own file, so the
+	// handlers are bound to the records of their protocol and not to whichever
+	// file was (re)loaded last
+	h6 := func(req, resp dhcpv6.DHCPv6) (dhcpv6.DHCPv6, bool) {
+		return handle6(&DHCPv6Records, req, resp)
+	}
+	h4 := func(req, resp *dhcpv4.DHCPv4) (*dhcpv4.DHCPv4, bool) {
+		return handle4(&DHCPv4Records, req, resp)
+	}
+	return h6, h4, nil
 }
 
 func loadFromFile(v6 bool, filename string) error {
@@ -290,6 +311,11 @@ func loadFromFile(v6 bool, filename string) error {
 	}
 
 	StaticRecords = records
+	if v6 {
+		DHCPv6Records = records
+	} else {
+		DHCPv4Records = records
+	}
 
 	return nil
 }
